@@ -5,6 +5,9 @@ from ..core import modules_for
 
 def run(ctx):
     q = ctx.tier == "quick"
+    if getattr(ctx, "replay", None) and "(vlib/precmd.py)" in open(ctx.replay).read():
+        from .. import precmd, abswrite      # a pre-command record: C01 reads the clauses roundtrip / reopen / crash of it
+        return abswrite.replay(ctx, ctx.replay, precmd.CATS)
     run_common(ctx, "C01", modules_for("C01"), stride=2 if q else 1, l1_scripts=250 if q else 2500)
     if not getattr(ctx, "replay", None):
         from .. import blockcamp
